@@ -245,9 +245,11 @@ func judge(prop, tier string, seed int, res *runResult, start time.Time, writeBa
 			continue
 		}
 		failedNames[bn] = true
-		if o.BindErr != "" {
-			// the contract of this function does not bind to the code any more: nothing
-			// it fails to prove is evidence against the code
+		if o.BindErr != "" && !refuted(o) {
+			// the contract of this function does not bind to the code any more: what it
+			// merely fails to PROVE is not evidence against the code (an obligation the
+			// solver REFUTES with a model is still reported: a returning defect usually
+			// restructures the function, and must not hide behind its own contract)
 			if !unboundSeen[o.Func] {
 				unboundSeen[o.Func] = true
 				fmt.Printf("CONTRACT-ERROR: %s: %s -- the contract has to follow the code; obligations of this function that no longer discharge are UNDECIDED, not violations\n", o.Func, o.BindErr)
